@@ -500,6 +500,61 @@ func checkC15(p *Program, r *Report) {
 			r.Add("C15.fresh", FnName(fn), "slice stored into field "+sf.Field.Name()+" of "+shortObj(tobj)+" is not shared with another key", sf.Pos, len(bad) == 0, how)
 		}
 	}
+	// round 6 (C15-agent6-m1): a whole-struct copy `c := *k` is a construction site too — the copy's slice fields are
+	// the original's slices.  Handing the copy out (Neuter on a public key returning k.clone()) gives two live keys
+	// over one set of buffers; a later overwrite of some fields on one path does not repair the paths that keep them.
+	for _, fn := range p.Funcs {
+		if fn.Pkg != pkg {
+			continue
+		}
+		for _, b := range fn.Blocks {
+			for _, in := range b.Instrs {
+				st, ok := in.(*ssa.Store)
+				if !ok || !types.Identical(st.Val.Type(), kt.Type()) {
+					continue
+				}
+				ld, ok := st.Val.(*ssa.UnOp)
+				if !ok || ld.Op != token.MUL {
+					continue
+				}
+				nsites++
+				r.Add("C15.fresh", FnName(fn), "a key is not copied as a whole struct (the copy's slice fields are the original's buffers)", st.Pos(), false,
+					"*"+exprString(ld.X)+" copied into "+exprString(st.Addr)+": key, chain code, fingerprint and public key of the two keys are the same memory — zeroing either key corrupts the other")
+			}
+		}
+	}
+	// round 6 (C15-agent6-m2): the frame argument is sequential.  A goroutine started by the package that can write a
+	// key (a background public-key derivation) may run after Zero and put key material back into the zeroed key.
+	for _, fn := range p.Funcs {
+		if fn.Pkg != pkg && !(fn.Parent() != nil && fn.Parent().Pkg == pkg) {
+			continue
+		}
+		for _, b := range fn.Blocks {
+			for _, in := range b.Instrs {
+				g, ok := in.(*ssa.Go)
+				if !ok {
+					continue
+				}
+				touches := false
+				vals := append([]ssa.Value{g.Call.Value}, g.Call.Args...)
+				for _, a := range vals {
+					if a == nil {
+						continue
+					}
+					for rt := range ef.Src(a) {
+						if rt.Kind == rkParam || rt.Kind == rkFreeVar || rt.Kind == rkUnknown {
+							touches = true
+						}
+					}
+					if mc, ok := a.(*ssa.MakeClosure); ok && len(mc.Bindings) > 0 {
+						touches = true
+					}
+				}
+				r.Add("C15.frame", FnName(fn), "no goroutine started here can write a key after the call returned", g.Pos(), !touches,
+					"the goroutine is handed memory reachable from a key (or a closure over it): it may store into the key after Zero has wiped it")
+			}
+		}
+	}
 	r.Floor("C15.fresh", 12)
 	c15overlap(p, r, pkg, kt, Z, sliceFields)
 
